@@ -15,13 +15,17 @@ Proof. exact ceil_sqrt_div_iff. Qed.
 Print Assumptions ceil_sqrt_div_characterised.
 
 (* requested area: the waveform integral amplitude*(rise/2 + flat + fall/2) equals it exactly
-   (all four area branches, symmetric or asymmetric ramps, either sign, zero) *)
+   (all four area branches, symmetric or asymmetric ramps, either sign, zero).  The hypothesis excludes
+   only a NEGATIVE requested flat_time: one in (-eps, 0) is treated as rounding noise and replaced by 0
+   (then the area changes by amplitude*|flat_time|), anything below is rejected. *)
 Theorem trap_area_exact : forall a g A, make_trap a = OK g -> a_area a = Some A ->
+  (forall t, a_flat_time a = Some t -> 0 <= t) ->
   t_amplitude g * (t_rise g / 2 + t_flat g + t_fall g / 2) == A.
 Proof. exact trap_area_exact_l. Qed.
 Print Assumptions trap_area_exact.
 
 Theorem trap_flat_area_exact : forall a g FA, make_trap a = OK g -> a_flat_area a = Some FA ->
+  (forall t, a_flat_time a = Some t -> 0 <= t) ->
   t_amplitude g * t_flat g == FA.
 Proof. exact trap_flat_area_exact_l. Qed.
 Print Assumptions trap_flat_area_exact.
@@ -33,11 +37,13 @@ Print Assumptions trap_amplitude_exact.
 
 (* requested timing.  [supplied_timing a] excludes only the area-only call, for which the code documents
    (with a warning) that rise_time / fall_time are ignored; a ramp given as 0 counts as not given
-   (Python `rise_time or fall_time`).  With a requested duration the three parts add up to it exactly,
-   except that the repaired amplitude+duration branch accepts a duration up to eps shorter than the two
-   ramps and then returns flat_time = 0. *)
+   (Python `rise_time or fall_time`).  A requested flat_time >= 0 is returned unchanged (one in (-eps, 0)
+   becomes 0).  With a requested duration the three parts add up to it exactly on the area paths and
+   whenever the two ramps fit; the amplitude+duration path tolerates a duration up to eps shorter than
+   the two ramps and then returns flat_time = 0 (anything shorter is rejected: defect 14). *)
 Theorem trap_timing_as_requested : forall a g, make_trap a = OK g ->
-  (forall t, a_flat_time a = Some t -> t_flat g = t) /\
+  (forall t, a_flat_time a = Some t ->
+     (0 <= t /\ t_flat g = t) \/ (- eps < t /\ t < 0 /\ t_flat g = 0)) /\
   (forall d, a_duration a = Some d -> a_flat_time a = None ->
      d <= t_rise g + t_flat g + t_fall g /\ t_rise g + t_flat g + t_fall g <= d + eps /\
      (a_amplitude a = None \/ t_rise g + t_fall g <= d -> t_rise g + t_flat g + t_fall g == d)) /\
@@ -68,8 +74,8 @@ Theorem trap_area_only_flat_on_raster : forall a g A, make_trap a = OK g ->
 Proof. exact trap_area_only_flat_raster_l. Qed.
 Print Assumptions trap_area_only_flat_on_raster.
 
-(* every returned event is well formed: the flat time is never negative (defect 14 and the rejection of
-   negative requests) and both ramps are strictly positive — for ALL accepted arguments *)
+(* every returned event is well formed: the flat time is never negative (defect 14: the final timing
+   validation) and both ramps are strictly positive — for ALL accepted arguments, no side condition *)
 Theorem trap_flat_nonneg : forall a g, make_trap a = OK g -> 0 <= t_flat g.
 Proof. exact trap_flat_nonneg_l. Qed.
 Print Assumptions trap_flat_nonneg.
@@ -143,9 +149,10 @@ Example ex_amplitude_flat_time_fall :
 Proof. vm_compute. reflexivity. Qed.
 Example ex_flat_area_flat_time : is_ok (make_trap (with_flat_time (with_flat_area ex_args (-100)) (us 1000))) = true.
 Proof. vm_compute. reflexivity. Qed.
-(* the reproducer of defect 14 is rejected by the repaired code, as are requests beyond a limit *)
+(* the reproducer of defect 14 is rejected by the repaired code (final timing validation), as are
+   requests beyond a limit *)
 Example ex_defect14_rejected :
-  err_is (make_trap (with_duration (with_amplitude ex_args 1000000) (us 100))) E_dur_short_amp = true.
+  err_is (make_trap (with_duration (with_amplitude ex_args 1000000) (us 100))) E_timing = true.
 Proof. vm_compute. reflexivity. Qed.
 Example ex_too_short_rejected :
   err_is (make_trap (with_duration (with_area ex_args 1) (us 30))) E_min_duration = true.
